@@ -261,7 +261,7 @@ class Model:
             if ms not in self.session_files:
                 self.session_files.add(ms)
                 self.seq += 1
-                self.file_sessions[ms] = (cfg["uuid"], self.seq)
+                self.file_sessions[ms] = (cfg["uuid"], self.seq, cfg["start"])
             assert k not in self.written, "model: overwrite"
             self.written[k] = row
             stored += 1
@@ -353,7 +353,7 @@ def values_for(cfg, seed, g, b, length):
         return np.empty((0, cfg["nsub"]), dtype=sd)
     out = make_values(cfg, seed, cfg["start"] + 7, length)  # defined filler for malformed layouts
     assert out.dtype == sd
-    nb = len(g)
+    nb = min(len(g), len(b))
     for i in range(nb):
         lo = b[i]
         hi = b[i + 1] if i + 1 < nb else length
